@@ -49,7 +49,7 @@ def n_cases(tier, quick, thorough):
 
 # ------------------------------------------------------------------ bind.generate
 def gen_generate(rng, tier):
-    for _ in range(n_cases(tier, 60, 1500)):
+    for _ in range(n_cases(tier, 60, 400)):
         u, desc, ctx = new_universe(rng)
         for _ in range(6):
             try:
@@ -94,7 +94,7 @@ def documents(rng, tier, n_uni, per_uni, mutate=True):
 
 
 def gen_parse(rng, tier):
-    for u, ctx, desc, tree, kind in documents(rng, tier, n_cases(tier, 50, 1200), 4):
+    for u, ctx, desc, tree, kind in documents(rng, tier, n_cases(tier, 50, 350), 4):
         yield {"ctx": ctx, "tree": tree, "clazz": "Root", "config": rng.choice(CONFIGS), "desc": desc, "_uni": u.modname, "_kind": kind}
 
 
@@ -117,8 +117,23 @@ def classify_parse(a, o):
 
 
 # ------------------------------------------------------------------ end to end
+def corpus_roundtrip(pattern="roundtrip-*.json"):
+    """recorded `bind.roundtrip` inputs (corpus/C01/roundtrip-*.json): shapes the random generator meets rarely"""
+    import glob
+    import os
+
+    root = os.path.join(os.path.dirname(os.path.dirname(os.path.abspath(__file__))), "corpus", "C01")
+    for path in sorted(glob.glob(os.path.join(root, pattern))):
+        a = json.load(open(path))
+        a.pop("_why", None)
+        u = B.Universe(a["desc"])
+        _UNIS[u.modname] = u
+        yield {**a, "ctx": u.export_ctx(), "_uni": u.modname}
+
+
 def gen_roundtrip(rng, tier):
-    for _ in range(n_cases(tier, 50, 1200)):
+    yield from corpus_roundtrip()
+    for _ in range(n_cases(tier, 50, 350)):
         u, desc, ctx = new_universe(rng)
         for _ in range(4):
             try:
@@ -143,7 +158,86 @@ def impl_roundtrip(a):
         )
     except Exception as e:  # noqa: BLE001
         return B.classify_exc(e)
-    return G.real_parse_bytes(u, a["clazz"], xml.encode(), handler=a["handler"], config=a["config"])
+    out = G.real_parse_bytes(u, a["clazz"], xml.encode(), handler=a["handler"], config=a["config"])
+    if "ok" in out and a.get("_bindings"):
+        out["ok"]["bindings"] = _bindings(xml)
+    return out
+
+
+def impl_roundtrip_scoped(a):
+    """`impl_roundtrip` + the prefix bindings of the document (for `cmp_roundtrip`)"""
+    return impl_roundtrip({**a, "_bindings": True})
+
+
+def _bindings(xml):
+    """prefix -> the namespaces it is bound to somewhere in the document"""
+    from lxml import etree
+
+    binds = {}
+    try:
+        for el in etree.fromstring(xml.encode()).iter():
+            if isinstance(el.tag, str):
+                for p, uri in el.nsmap.items():
+                    binds.setdefault(p or "", set()).add(uri)
+    except etree.XMLSyntaxError:
+        return {}
+    return {p: sorted(us) for p, us in sorted(binds.items())}
+
+
+_Q, _NS = __import__("re").compile(r"^q(\d+):(.*)$", __import__("re").S), __import__("re").compile(r"^ns(\d+):(.*)$", __import__("re").S)
+
+
+def _same_token(tm, ti, uris, binds):
+    """`q<k>:local` of the model and `ns<j>:local` of the code denote the same name: the namespace the
+    abstract writer binds to `q<k>` is one the document binds to `ns<j>`"""
+    if tm == ti:
+        return True
+    mm, im = _Q.match(tm), _NS.match(ti)
+    if not (mm and im and mm.group(2) == im.group(2)):
+        return False
+    k = int(mm.group(1))
+    return k < len(uris) and uris[k] in binds.get("ns" + im.group(1), [])
+
+
+def _same_generic_text(tm, ti, uris, binds):
+    if tm == ti:
+        return True
+    if not (isinstance(tm, str) and isinstance(ti, str)):
+        return False
+    a, b = tm.split(" "), ti.split(" ")
+    return len(a) == len(b) and all(_same_token(x, y, uris, binds) for x, y in zip(a, b))
+
+
+def _same_denoted(m, i, uris, binds):
+    """equality of two parsed values, strict everywhere but in the text of generic elements"""
+    if isinstance(m, dict) and isinstance(i, dict):
+        if m.keys() != i.keys():
+            return False
+        if set(m) == {"any"} and isinstance(m["any"], dict) and isinstance(i["any"], dict):
+            am, ai = m["any"], i["any"]
+            return (am.keys() == ai.keys() and all(am[k] == ai[k] for k in am if k not in ("text", "children"))
+                    and _same_generic_text(am["text"], ai["text"], uris, binds)
+                    and _same_denoted(am["children"], ai["children"], uris, binds))
+        return all(_same_denoted(m[k], i[k], uris, binds) for k in m)
+    if isinstance(m, list) and isinstance(i, list):
+        return len(m) == len(i) and all(_same_denoted(x, y, uris, binds) for x, y in zip(m, i))
+    return m == i
+
+
+def cmp_roundtrip(mo, io, a):
+    """Exact comparison of the parsed objects, with one exception: the text of a *generic* element
+    (AnyElement).  A QName-typed element that the parser reads back as generic content (it is captured by
+    a wildcard) keeps its raw text `prefix:local`; the abstract writer of the model names its prefixes
+    `q0, q1, …` (the driver reports the namespaces they stand for), the real writers `ns0, ns1, …` (prefix
+    allocation is the writer layer, C03).  Such text is compared by the name it denotes: the namespace of
+    the model's prefix must be one the real document binds to the code's prefix."""
+    if unsupported(mo):
+        return True
+    if "ok" in mo and "ok" in io:
+        m, i = dict(mo["ok"]), dict(io["ok"])
+        uris, binds = m.pop("prefixes", []), i.pop("bindings", {})
+        return m == i or _same_denoted(m, i, uris, binds)
+    return mo == io
 
 
 def classify_rt(a, o):
